@@ -246,11 +246,11 @@ func expectedFrom(log []Commit, p int, id string) (snapshot map[string]Snap, evs
 
 // splitStream separates the snapshot section, data events and a terminal error.
 type streamParts struct {
-	snapshot      map[string]Snap // nil if unknown
-	snapshotKnown bool
-	data          []EvRec
-	errored       bool
-	problem       string
+	snapshot        map[string]Snap // nil if unknown
+	snapshotKnown   bool
+	data            []EvRec
+	errored         bool
+	problem         string
 	sawBootstrapped bool
 }
 
